@@ -43,6 +43,7 @@ pub fn run_sqlhist(inp: &mut dyn BufRead, out: &mut dyn Write) {
         let res = guarded(|| {
             let mut outs: Vec<String> = Vec::new();
             let mut h = SQLiteHistory::open(cfg(max, igs, igd), &path).expect("open");
+            let mut cur = (igs, igd);
             for op in parts {
                 let t: Vec<&str> = op.split_whitespace().collect();
                 if t.is_empty() {
@@ -71,9 +72,16 @@ pub fn run_sqlhist(inp: &mut dyn BufRead, out: &mut dyn Write) {
                         Ok(()) => "u".into(),
                         Err(_) => "err".into(),
                     },
+                    "reopen2" => {
+                        // the database reopened with ANOTHER duplicates / blanks policy
+                        drop(h);
+                        cur = (parse_bool(t[1]), parse_bool(t[2]));
+                        h = SQLiteHistory::open(cfg(max, cur.0, cur.1), &path).expect("reopen2");
+                        "u".into()
+                    }
                     "reopen" => {
                         drop(h);
-                        h = SQLiteHistory::open(cfg(max, igs, igd), &path).expect("reopen");
+                        h = SQLiteHistory::open(cfg(max, cur.0, cur.1), &path).expect("reopen");
                         "u".into()
                     }
                     "search" | "sw" => {
